@@ -5,8 +5,10 @@ package main
 import (
 	"fmt"
 	"go/ast"
+	"go/constant"
 	"go/token"
 	"go/types"
+	"regexp"
 	"sort"
 	"strings"
 
@@ -273,14 +275,37 @@ func ruleByteCounts(r *Run, rule string, k *serKind) {
 						want := map[string]string{"b8": "1", "b16": "2", "b32": "4", "b64": "8"}[strings.SplitN(wd, ":", 2)[0]]
 						if want != "" {
 							okInc := false
+							isWant := func(e ast.Expr) bool {
+								v, ok := astConstInt(w, e)
+								return ok && fmt.Sprint(v) == want
+							}
 							for _, st := range cc.Body {
-								if as, ok := st.(*ast.AssignStmt); ok && as.Tok == token.ADD_ASSIGN && len(as.Rhs) == 1 {
-									if bl, ok := as.Rhs[0].(*ast.BasicLit); ok && bl.Value == want {
+								switch x := st.(type) {
+								case *ast.AssignStmt:
+									if x.Tok == token.ADD_ASSIGN && len(x.Rhs) == 1 && isWant(x.Rhs[0]) {
 										okInc = true
 									}
-								}
-								if rs, ok := st.(*ast.ReturnStmt); ok && len(rs.Results) == 1 {
-									if bl, ok := rs.Results[0].(*ast.BasicLit); ok && bl.Value == want {
+									// the result variable of an inlined sizing helper (`return 4` → `r0_h1 = 4`, added to the count after it)
+									if x.Tok == token.ASSIGN && len(x.Rhs) == 1 && len(x.Lhs) == 1 && isWant(x.Rhs[0]) {
+										if id, ok := x.Lhs[0].(*ast.Ident); ok && regexp.MustCompile(`^r\d+_h\d+$`).MatchString(id.Name) {
+											okInc = true
+										}
+									}
+									// n = n + 4
+									if x.Tok == token.ASSIGN && len(x.Rhs) == 1 && len(x.Lhs) == 1 {
+										if be, ok := ast.Unparen(x.Rhs[0]).(*ast.BinaryExpr); ok && be.Op == token.ADD {
+											l, rr := types.ExprString(x.Lhs[0]), be
+											if (types.ExprString(rr.X) == l && isWant(rr.Y)) || (types.ExprString(rr.Y) == l && isWant(rr.X)) {
+												okInc = true
+											}
+										}
+									}
+								case *ast.IncDecStmt:
+									if x.Tok == token.INC && want == "1" {
+										okInc = true
+									}
+								case *ast.ReturnStmt:
+									if len(x.Results) == 1 && isWant(x.Results[0]) {
 										okInc = true
 									}
 								}
@@ -787,6 +812,24 @@ func magicAndVersion(w *World, k *serKind) (wm, rm, wv, rv string) {
 		}
 		return true
 	})
+	// the header spelled with constants / through a raw-write helper: the first raw token carries []byte("XXXX"), the
+	// first field token after it the version
+	wtoks := flattenToks(k.Writer.Toks)
+	if wm == "" && len(wtoks) > 0 && wtoks[0].Kind == "RAW" {
+		if m := regexp.MustCompile(`^\[\]byte\("(.{4})"\)$`).FindStringSubmatch(wtoks[0].Arg); m != nil {
+			wm = m[1]
+		}
+	}
+	if wv == "" {
+		for _, t := range wtoks {
+			if t.Kind == "FIELD" {
+				if m := regexp.MustCompile(`^(?:u?int(?:8|16|32|64)?\()?(\d+)\)?$`).FindStringSubmatch(t.Arg); m != nil {
+					wv = m[1]
+				}
+				break
+			}
+		}
+	}
 	ast.Inspect(k.RDecl.Body, func(n ast.Node) bool {
 		ifs, ok := n.(*ast.IfStmt)
 		if !ok {
@@ -887,7 +930,48 @@ func magicAndVersion(w *World, k *serKind) (wm, rm, wv, rv string) {
 			return true
 		})
 	}
+	if rm == "" {
+		rm = firstRejectedMagic(w, k)
+	}
 	return
+}
+
+// firstRejectedMagic: the first `X != "ABCD"` (or !bytes.Equal(X, []byte("ABCD"))) in the reader whose body returns an
+// error: the buffer was read through a helper that returns it, so its name is not the one the raw token carries.
+func firstRejectedMagic(w *World, k *serKind) string {
+	rm := ""
+	ast.Inspect(k.RDecl.Body, func(n ast.Node) bool {
+		ifs, ok := n.(*ast.IfStmt)
+		if !ok || rm != "" {
+			return rm == ""
+		}
+		returnsErr := false
+		for _, st := range ifs.Body.List {
+			if rs, ok := st.(*ast.ReturnStmt); ok && len(rs.Results) > 0 && exprStr(rs.Results[len(rs.Results)-1]) != "nil" {
+				returnsErr = true
+			}
+		}
+		neq := false
+		switch c := ifs.Cond.(type) {
+		case *ast.BinaryExpr:
+			neq = c.Op == token.NEQ
+		case *ast.UnaryExpr:
+			neq = c.Op == token.NOT
+		}
+		if !returnsErr || !neq {
+			return true
+		}
+		ast.Inspect(ifs.Cond, func(m ast.Node) bool {
+			if e, ok := m.(ast.Expr); ok && rm == "" {
+				if sv, ok := constStringOf(w.Info, e); ok && len(sv) == 4 {
+					rm = sv
+				}
+			}
+			return true
+		})
+		return true
+	})
+	return rm
 }
 
 func constantInt(tv types.TypeAndValue) (int64, bool) {
@@ -947,6 +1031,19 @@ func ruleReaderFlow(r *Run, rule string, k *serKind) {
 						if id, ok := x.Rhs[0].(*ast.Ident); ok {
 							allowed[id.Pos()] = true
 						}
+					}
+				}
+			}
+			return true
+		})
+		// a nil test of the stream consumes nothing
+		ast.Inspect(body, func(n ast.Node) bool {
+			if be, ok := n.(*ast.BinaryExpr); ok && (be.Op == token.EQL || be.Op == token.NEQ) {
+				for _, pair := range [][2]ast.Expr{{be.X, be.Y}, {be.Y, be.X}} {
+					id, isID := ast.Unparen(pair[0]).(*ast.Ident)
+					other, isNil := ast.Unparen(pair[1]).(*ast.Ident)
+					if isID && isNil && other.Name == "nil" && w.Info.Uses[other] == types.Universe.Lookup("nil") {
+						allowed[id.Pos()] = true
 					}
 				}
 			}
@@ -1252,7 +1349,18 @@ func multiReaderOrder(w *World, fn *ssa.Function, call ssa.CallInstruction) []st
 			continue
 		}
 		for _, e := range elems {
-			out = append(out, classify(valueNameHint(w, fn, e)))
+			lastOpenPath = nil
+			hint := valueNameHint(w, fn, e)
+			// opened in a loop over a literal table of the parts: one entry per row, in the table's order
+			if lastOpenPath != nil {
+				if col := tableColumn(lastOpenPath); len(col) > 0 {
+					for _, x := range col {
+						out = append(out, classify(c.S(x)))
+					}
+					continue
+				}
+			}
+			out = append(out, classify(hint))
 		}
 	}
 	// slice literal start: []io.Reader{hybridGz}
@@ -1269,6 +1377,97 @@ func multiReaderOrder(w *World, fn *ssa.Function, call ssa.CallInstruction) []st
 			}
 		}
 	})
+	return out
+}
+
+// lastOpenPath: the path operand of the os.Open call valueNameHint last stopped at.
+var lastOpenPath ssa.Value
+
+// tableColumn: v is the field f of the current element of a range loop over a literal table ([]struct{…}{{…}, {…}}):
+// returns the values of f in the table's rows, in order.
+func tableColumn(v ssa.Value) []ssa.Value {
+	var ia *ssa.IndexAddr
+	f := -1
+	switch x := v.(type) {
+	case *ssa.Field:
+		if ld, ok := x.X.(*ssa.UnOp); ok && ld.Op == token.MUL {
+			ia, _ = ld.X.(*ssa.IndexAddr)
+		}
+		f = x.Field
+	case *ssa.UnOp:
+		if fa, ok := x.X.(*ssa.FieldAddr); ok && x.Op == token.MUL {
+			ia, _ = fa.X.(*ssa.IndexAddr)
+			f = fa.Field
+			// the loop variable is a copy of the row: component := table[i]
+			if a, isA := fa.X.(*ssa.Alloc); isA {
+				if sv := singleStore(a); sv != nil {
+					if ld, ok := sv.(*ssa.UnOp); ok && ld.Op == token.MUL {
+						ia, _ = ld.X.(*ssa.IndexAddr)
+					}
+				}
+			}
+		}
+	}
+	if ia == nil || f < 0 || !isRangeIndex(ia.Index) {
+		return nil
+	}
+	var arr *ssa.Alloc
+	switch x := ia.X.(type) {
+	case *ssa.Slice:
+		arr, _ = x.X.(*ssa.Alloc)
+	case *ssa.Alloc:
+		arr = x
+	}
+	if arr == nil || arr.Comment != "slicelit" && arr.Comment != "complit" {
+		return nil
+	}
+	rows := map[int64]ssa.Value{}
+	for _, ref := range *arr.Referrers() {
+		ea, ok := ref.(*ssa.IndexAddr)
+		if !ok {
+			continue
+		}
+		k, isK := ea.Index.(*ssa.Const)
+		if !isK {
+			if ea == ia {
+				continue
+			}
+			return nil
+		}
+		for _, rr := range *ea.Referrers() {
+			if fa, ok := rr.(*ssa.FieldAddr); ok && fa.Field == f {
+				for _, r3 := range *fa.Referrers() {
+					if st, ok := r3.(*ssa.Store); ok && st.Addr == ssa.Value(fa) {
+						rows[k.Int64()] = st.Val
+					}
+				}
+			}
+			// the row is built in a temporary and copied in: *row = *tmp
+			if st, ok := rr.(*ssa.Store); ok && st.Addr == ssa.Value(ea) {
+				if ld, ok := st.Val.(*ssa.UnOp); ok && ld.Op == token.MUL {
+					if tmp, ok := ld.X.(*ssa.Alloc); ok {
+						for _, r3 := range *tmp.Referrers() {
+							if fa, ok := r3.(*ssa.FieldAddr); ok && fa.Field == f {
+								for _, r4 := range *fa.Referrers() {
+									if st2, ok := r4.(*ssa.Store); ok && st2.Addr == ssa.Value(fa) {
+										rows[k.Int64()] = st2.Val
+									}
+								}
+							}
+						}
+					}
+				}
+			}
+		}
+	}
+	var out []ssa.Value
+	for i := int64(0); i < int64(len(rows)); i++ {
+		x, ok := rows[i]
+		if !ok {
+			return nil
+		}
+		out = append(out, x)
+	}
 	return out
 }
 
@@ -1299,6 +1498,7 @@ func valueNameHint(w *World, fn *ssa.Function, v ssa.Value) string {
 			switch calleeName(x.Common()) {
 			case "os.Open", "os.OpenFile", "os.Create":
 				out = c.S(x.Call.Args[0])
+				lastOpenPath = x.Call.Args[0]
 			default:
 				for _, a := range x.Call.Args {
 					rec(a, d+1)
@@ -1393,4 +1593,17 @@ func ruleImplicitInvariants(r *Run, rule string) {
 		}
 		r.Check(ok, rule, "inv:code-length:"+w.Name(enc), w.Pos(enc.Pos())+" "+w.Name(enc), "a code is make([]uint8, M)", "code length is not M")
 	}
+}
+
+// astConstInt: the integer value of a constant expression (literal, named constant, conversion of one).
+func astConstInt(w *World, e ast.Expr) (int64, bool) {
+	tv, ok := w.Info.Types[e]
+	if !ok || tv.Value == nil {
+		return 0, false
+	}
+	c := constant.ToInt(tv.Value)
+	if c.Kind() != constant.Int {
+		return 0, false
+	}
+	return constant.Int64Val(c)
 }
